@@ -230,4 +230,82 @@ def GRow.ansiAux : Option Style → GRow → Bytes
 
 def GRow.ansi (r : GRow) : Bytes := GRow.ansiAux none r
 
+/-! ### `StyledLine(x, w, y)` of the grid buffer -/
+
+/-- a run of the public `Line` type: style, text or repeated rune, width (`Span` of `line.go`) -/
+structure GSpan where
+  sty : Style
+  text : Bytes
+  rune : Nat
+  width : Nat
+deriving DecidableEq, Repr
+
+/-- the cells a `GSpan` stands for (as `TM.SpanLine.spanCells`, but a text run lists its
+    characters with their widths explicitly: `chars`) -/
+structure GSpanC where
+  span : GSpan
+  chars : List (Bytes × Nat)     -- the characters the text was built from, with their cell widths
+deriving DecidableEq, Repr
+
+def GSpanC.cells (s : GSpanC) : List Cell :=
+  if s.span.text.isEmpty then List.replicate s.span.width ⟨.ch (encodeRune s.span.rune) 1, s.span.sty⟩
+  else s.chars.flatMap fun c => charCells c.1 c.2 s.span.sty
+
+/-- number of leading cells of `cs` with style `st` (the loop `for i < x+w && styles[i] == style`) -/
+def gStyleRun (st : Style) : GRow → Nat
+  | [] => 0
+  | c :: rest => if c.sty = st then gStyleRun st rest + 1 else 0
+
+/-- `for start+pad < x+w && pad < width && cellCont[start+pad] { pad++ }` on the cells of the stretch -/
+def gLeadCont : GRow → Nat
+  | [] => 0
+  | c :: rest => if c.cont then gLeadCont rest + 1 else 0
+
+/-- `for cutTail < width && cellCont[end-1-cutTail] { cutTail++ }` on the reversed stretch -/
+def gTrailCont (r : GRow) : Nat := gLeadCont r.reverse
+
+/-- one stretch of equal attributes `seg` (already clipped to the requested range) rendered as
+    runs. `atStart`: the stretch begins at the left edge `x` of the request; `cutEnd`: it ends at
+    the right edge `x+w`, inside the row, and the cell after it is a continuation cell. -/
+def gStretch (st : Style) (seg : GRow) (atStart cutEnd : Bool) : List GSpanC :=
+  let blanks (n : Nat) : GSpanC := ⟨⟨st, [], 0x20, n⟩, []⟩
+  -- a wide character cut by the left edge: its cells inside the range are blanks
+  let pad := if atStart ∧ seg.head?.map (·.cont) = some true then gLeadCont seg else 0
+  let pre := if atStart ∧ seg.head?.map (·.cont) = some true then [blanks pad] else []
+  let seg1 := seg.drop pad
+  if seg1.isEmpty ∧ pad > 0 then pre else
+  -- a wide character that continues beyond the right edge: its cells inside the range are blanks
+  let cutTail := if cutEnd then min (gTrailCont seg1 + 1) seg1.length else 0
+  let body := seg1.take (seg1.length - cutTail)
+  if body.isEmpty then pre ++ [blanks cutTail] else
+  let first := (body.head?.map (·.ch)).getD 0
+  let isRepeat := body.all fun c => c.ch == first && c.width == 1 && !c.cont
+  let main : GSpanC :=
+    if isRepeat then ⟨⟨st, [], first, body.length⟩, []⟩
+    else ⟨⟨st, (body.filter (!·.cont)).flatMap (·.text), 0, body.length⟩,
+          (body.filter (!·.cont)).map fun c => (c.text, c.width)⟩
+  pre ++ [main] ++ (if cutTail > 0 then [blanks cutTail] else [])
+
+/-- the loop of `StyledLine` over the cells `[i, x+w)`: stretches of equal attributes -/
+def gStyledAux (r : GRow) (x e : Nat) : Nat → Nat → List GSpanC
+  | 0, _ => []
+  | fuel+1, i =>
+    if i ≥ e then [] else
+    let rest := (r.drop i).take (e - i)
+    match rest with
+    | [] => []
+    | c :: _ =>
+      let n := gStyleRun c.sty rest
+      let seg := rest.take n
+      let stop := i + n
+      let cutEnd := decide (stop = e) && decide (e < r.length) && r.contAt e
+      gStretch c.sty seg (decide (i = x)) cutEnd ++ gStyledAux r x e fuel stop
+
+/-- `StyledLine(x, w, y)` on a row (`w = none`: a negative width, i.e. to the end of the row) -/
+def GRow.styledLine (r : GRow) (x : Nat) (w : Option Nat) : List GSpanC × Nat :=
+  let w := match w with
+    | some w => if x + w > r.length then r.length - x else w
+    | none => r.length - x
+  (gStyledAux r x (x + w) (w + 1) x, w)
+
 end TM
